@@ -123,6 +123,24 @@ NodeJudgeable(node) ==
      p = NoPat \/ (InFragment(p) /\ \A j \in DOMAIN VarOccs(p) : ~IsIneqP(VarOccs(p)[j]))
 
 (***************************************************************************)
+(* The engine itself is deterministic except for one documented choice: a  *)
+(* guarded branch whose pattern yields several candidates tries them in an *)
+(* arbitrary order.  DetSpec: no guarded branch has a pattern that can     *)
+(* yield several candidates (an array with a variable, a property          *)
+(* variable).                                                              *)
+(***************************************************************************)
+RECURSIVE MultiCapable(_)
+MultiCapable(p) ==
+  CASE p = NoPat -> FALSE
+    [] IsVarP(p) -> FALSE
+    [] Tag(p) = "pobj" -> TRUE
+    [] Tag(p) \in {"obj", "badobj"} -> \E k \in DOMAIN p[2] : MultiCapable(p[2][k])
+    [] IsArr(p) -> (\E i \in DOMAIN p[2] : IsVarP(p[2][i])) \/ (\E i \in DOMAIN p[2] : MultiCapable(p[2][i]))
+    [] OTHER -> FALSE
+DetSpec(spec) == \A n \in DOMAIN spec.nodes : \A i \in DOMAIN spec.nodes[n].branches :
+                   spec.nodes[n].branches[i].guard = NoOps \/ ~MultiCapable(spec.nodes[n].branches[i].pat)
+
+(***************************************************************************)
 (* Normalisation of observed results: error texts are unpredictable, only  *)
 (* their presence (a non-empty string) is required.                        *)
 (***************************************************************************)
